@@ -2,9 +2,9 @@ package c16
 
 import (
 	"bytes"
-	"fmt"
 	"crypto/sha256"
 	"encoding/binary"
+	"fmt"
 	"testing"
 
 	"github.com/canopy-network/canopy/lib"
